@@ -88,6 +88,9 @@ pub fn small_scenario(seed: u64) -> MuxScenario {
         let mut r = Rng::new(seed ^ (attempt.wrapping_mul(0x9E37_79B9)));
         let mut sc = gen_mux(&mut r, &o);
         sc.io = IoKnobs::plain();
+        // seed images start at offset 0 of an empty sink
+        sc.start_pos = 0;
+        sc.preexisting = 0;
         // keep rejected calls out of seed images
         let n = sc.track_count() as u32;
         sc.ops.retain(|op| match op {
@@ -1441,6 +1444,35 @@ mod chain_tests {
                 Ok(r) => eprintln!("seed {seed}: n={} tracks={}", img.len(), r.tracks().len()),
                 Err(e) => panic!("seed {seed}: n={} does not open: {e}", img.len()),
             }
+        }
+    }
+}
+
+#[cfg(test)]
+mod openrate_tests {
+    use super::*;
+    use std::io::Cursor;
+    #[test]
+    fn open_rates_by_class() {
+        for class in ["mux", "reloc", "shuffled", "meta", "frag"] {
+            let mut fails = std::collections::BTreeMap::new();
+            let mut ok = 0;
+            for seed in 0..300u64 {
+                let spec = match class {
+                    "mux" => SeedSpec::Mux { seed },
+                    "reloc" => SeedSpec::MuxReloc { seed },
+                    "shuffled" => SeedSpec::MuxShuffled { seed },
+                    "meta" => SeedSpec::Meta { seed },
+                    _ => SeedSpec::Frag { seed },
+                };
+                let img = build(&spec).bytes;
+                match mp4::Mp4Reader::read_header(Cursor::new(img.clone()), img.len() as u64) {
+                    Ok(_) => ok += 1,
+                    Err(e) => *fails.entry(format!("{e}")).or_insert(0u32) += 1,
+                }
+            }
+            eprintln!("class {class}: {ok}/300 open; {fails:?}");
+            assert_eq!(ok, 300, "seed images of class {class} must open intact: {fails:?}");
         }
     }
 }
